@@ -1594,3 +1594,29 @@ M("c05o", "fire", ["C05"], "the 0.3 rpm manifest reader no longer reads the comp
         self.compose.deserialize(data["payload"])
 ''', '''    def deserialize_0_3(self, data):
 '''))
+
+M("c05p", "fire", ["C05"], "pre-productmd source trees: the packages path is no longer moved to source_packages",
+  (TI, '''        if self._metadata.tree.arch == "src":
+            self.source_packages = self.packages
+            self.source_repository = self.repository
+            self.packages = None
+            self.repository = None
+
+        # identity''', '''        if self._metadata.tree.arch == "src":
+            self.source_repository = self.repository
+            self.packages = None
+            self.repository = None
+
+        # identity'''))
+
+M("c05q", "fire", ["C05"], "0.3 treeinfo: the source swap happens for every tree but source trees",
+  (TI, '''            value = parser.option_lookup(lookup, None)
+            setattr(self, field, value)
+
+        if self._metadata.tree.arch == "src":''', '''            value = parser.option_lookup(lookup, None)
+            setattr(self, field, value)
+
+        if self._metadata.tree.arch != "src":'''))
+
+M("c05r", "fire", ["C05"], "0.3 rpm manifest: sigkey of the binary package read from the wrong key",
+  (RP, '''rpm_data["path"], rpm_data["sigkey"], category, srpm_nevra)''', '''rpm_data["path"], rpm_data["path"], category, srpm_nevra)'''))
